@@ -10,7 +10,7 @@ REQ_PATHS = ["/s", "/g/s", "/g/h/s", "/h/s", "/d/7", "/g/d/7", "/h/d/x", "/o", "
 DEV = dict(D_IrregularOverwrite=False, D_QuotedStart=False, D_VarlessOptionalIrregular=False, D_EmptyCheckBeforeTrim=False,
            D_InterceptRaw=False, D_FallbackBeforeHead=False, D_AllowProbeHeadFallback=False,
            D_CacheKeyFirstSegment=False, D_CacheKeyNoMethod=False, D_CacheSkipsStable=False,
-           D_NoRestoreMw=False, D_UseLeaksToParent=False, D_RouteMwBeforeGroup=False,
+           D_GroupAliasesCallerList=False, D_NoRestoreMw=False, D_UseLeaksToParent=False, D_RouteMwBeforeGroup=False,
            D_NextCreeps=False, D_FlushNoCommit=False, D_PanicNoCommit=False)
 
 
